@@ -294,6 +294,90 @@ def run_same_frontend(chk):
     chk.cov["same_frontend_histories"] = n
 
 
+def run_recording(chk, model):
+    """Histories through the REAL BuildSystemFrontend with a file system that RECORDS the arguments of FileSystem::remove instead of removing:
+    path strings that name objects directly under the file-system root ('/x', '//x', '//x/y', '/', '//'), which no sandbox on the real file
+    system can hold, take part. Each build is its own frontend over one database (= one process per run as far as the stored lists go).
+    Compared: the exact set of strings handed to remove() against (a) the model Path.PathPrefix.stale_history, (b) the property text."""
+    import subprocess
+    drv = vlib.build_drivers(["bsys_driver"])["bsys_driver"]
+    base = os.path.join(vlib.WORK, "tmp", "c14rec")
+    shutil.rmtree(base, ignore_errors=True)
+    rng = chk.rng
+    hxs = lambda x: x.encode().hex()
+    n = chk.n(30, 400)
+    nruns = 0
+    names = ["a", "b", "ab", "a/b", "a/b/c", "b/a", "a.o"]
+    def spellings(nm):
+        return ["/" + nm, "//" + nm, "/" + nm + "/", "//" + nm + "/", "///" + nm, nm, "./" + nm, "/" + nm.replace("/", "//")]
+    cands = sorted(set(x for nm in names for x in spellings(nm))) + ["/", "//", "", "."]
+    rootc = ["/", "//", "/a", "//a", "/a/", "//a/", "/a/b", "//a/b/", "/b", "//b", "/ab", "a", "/a.o", "//a.o", "///a", "/a//b"]
+    for h in range(n):
+        S = os.path.join(base, "h%d" % h)
+        os.makedirs(S)
+        runs = []
+        for i in range(rng.randint(2, 4)):
+            pool = cands if h % 3 else [c for c in cands if c.startswith("/")]       # every third history: absolute spellings only
+            e = rng.sample(pool, rng.randint(0, 8))
+            roots = [] if rng.random() < 0.25 else rng.sample(rootc, rng.randint(1, 3))
+            runs.append((e, roots))
+        def fl(l): return "." if not l else ",".join(hx(x.encode()) for x in l)
+        rc, out, err = vlib.run_lines(model, ["stale_history NONE " + " ".join(fl(e) + "/" + fl(r) for (e, r) in runs)])
+        pred = [[] if f == "." else [vlib.unhx(x).decode() for x in f.split(",")] for f in out[0].split(" ")]
+        p = subprocess.Popen([drv], stdin=subprocess.PIPE, stdout=subprocess.PIPE, text=True)
+        def ask(l):
+            p.stdin.write(l + "\n"); p.stdin.flush()
+            return p.stdout.readline().strip()
+        try:
+            for i, (e, roots) in enumerate(runs):
+                bf = S + "/b%d.llbuild" % i
+                open(bf, "w").write(BUILD_TMPL % (", ".join(yq(x) for x in e), ("    roots: [%s]\n" % ", ".join(yq(x) for x in roots)) if roots else ""))
+                ask("openrec %s %s %s 0" % (hxs(S), hxs(bf), hxs(S + "/build.db")))
+                ans = ask("fbuild - 0 - -")
+                rec = ask("removed")
+                ask("close")
+                nruns += 1
+                got = sorted(set([] if rec == "." else [("" if x == "-" else vlib.unhx(x).decode()) for x in rec.split(",")]))
+                want_model = sorted(set(pred[i]))
+                prior = runs[i - 1][0] if i > 0 else []
+                # the property text. Upper bound (nothing else may be removed, ANY spelling): listed by the previous successful run, not
+                # listed now; with roots: absolute and at/beneath a root by whole components.
+                want_prop = sorted(set(d for d in prior if d not in e and
+                                       (not roots or (d.startswith("/") and any(comp_prefix(comps(r), comps(d)) for r in roots)))))
+                # Lower bound (must be removed): the same with "beneath a root" read on canonical spellings, as in theorem
+                # c14_pip_complete: root = "/c1/../cn" + any trailing separators, path = that canonical root followed by nothing or by a
+                # separator and anything. (A root and a path that spell the SAME components with differently doubled separators are
+                # not matched by the code; the completeness theorem does not claim them - DESIGN 10.2.)
+                def canon_under(r, d):
+                    cr = "".join("/" + c for c in comps(r))
+                    return r.rstrip("/") == cr and (d == cr or d.startswith(cr + "/"))
+                must = sorted(set(d for d in prior if d not in e and (not roots or (d.startswith("/") and any(canon_under(r, d) for r in roots)))))
+                chk.count(("rec", tuple(got), tuple(roots)) if got else None)
+                if h == 0 and i == 1:
+                    chk.sample(dict(kind="recording-run", prior=prior, expected=e, roots=roots, model_deletes=want_model, remove_calls=got))
+                bad_prop = [x for x in got if x not in want_prop] or [x for x in must if x not in got]
+                if not ans.startswith("ok=1") or got != want_model or bad_prop:
+                    rp = dict(history=[dict(expected=a, roots=b) for (a, b) in runs[:i + 1]], run_index=i, remove_calls=got, model_deletes=want_model,
+                              property_text_allows=want_prop, property_text_requires=must, driver_answer=ans[:300])
+                    if not ans.startswith("ok=1"):
+                        chk.violation("stale-build-failed-recording", "the build with a stale-file-removal command failed: %s" % ans[:120], rp,
+                                      found_input=True, broken="c14 oracle on BuildSystemFrontend with a recording file system")
+                    elif bad_prop:
+                        extra = [x for x in got if x not in want_prop]; miss = [x for x in must if x not in got]
+                        chk.violation("stale-removed-too-much-recording" if extra else "stale-removed-too-little-recording",
+                                      "remove() was called for %s; the property allows at most %s and requires at least %s (previous list %s, current list %s, roots %s)" % (got, want_prop, must, prior, e, roots),
+                                      rp, found_input=True, broken="c14 oracle on BuildSystemFrontend with a recording file system")
+                    else:
+                        chk.violation("stale-correspondence-recording", "model (Path.PathPrefix.stale_history) and the remove() calls of the stale-file-removal command differ",
+                                      rp, found_input=False, broken="correspondence: Path.PathPrefix.stale_history")
+                    break
+        finally:
+            p.stdin.close(); p.wait(timeout=20)
+        shutil.rmtree(S, ignore_errors=True)
+    chk.cov["recording_histories"] = n
+    chk.cov["recording_runs"] = nruns
+
+
 def run(chk):
     drv = vlib.build_drivers(["leaf_driver"])["leaf_driver"]
     model = vlib.model_bin()
@@ -304,6 +388,7 @@ def run(chk):
     from props import c14fs
     c14fs.run_fs(chk)
     run_same_frontend(chk)
+    run_recording(chk, model)
     chk.assumptions = ["POSIX path separators only ('/'); the Windows separator set is not modelled",
                        "file system model (Path/FsRemove.v): regular files, directories and symbolic links only; permissions not modelled (the harness runs as root); "
                        "the process working directory is the tree root; readdir order is an input of the model",
@@ -311,7 +396,7 @@ def run(chk):
     return chk.finish(level="proof",
                       rule="pip: every pair of strings over the path alphabet up to length 5 plus structured random pairs; non-trivial = pairs on which the implementation answers true. "
                            "fs: generated trees with symbolic links x every path: model remove == LocalFileSystem::remove (result tree and errno) and a model-independent before/after oracle. "
-                           "cli: random histories of (expectedOutputs, roots) lists run through `llbuild buildsystem build` in fresh processes over one database; non-trivial = runs that delete something; distinct by (deleted set, roots)",
+                           "rec: random histories of lists whose strings name objects directly under '/', run on the real BuildSystemFrontend with a file system that records remove(): exact remove() argument set == model == property text. cli: random histories of (expectedOutputs, roots) lists run through `llbuild buildsystem build` in fresh processes over one database; non-trivial = runs that delete something; distinct by (deleted set, roots)",
                       trusted=["hand-written models coq/Path/PathPrefix.v and coq/Path/FsRemove.v, tied by correspondence only", "harness/cpp/leaf_driver.cpp", "harness/cpp/fsrm_driver.cpp (chroot sandbox)", "extraction (ExtrOcamlBasic) + ocaml/vmodel.ml"])
 
 def replay(chk, rp):
